@@ -13,11 +13,12 @@
    c_report C = true).  c_nosp C = false: the dialector implements save points (with one that does
    not, SavePoint / RollbackTo answer ErrUnsupportedDriver: modelled, tied by the correspondence,
    outside these theorems).  plain_prog p: no block cancels its own context (with Cancel the model
-   predicts gorm's behaviour, which violates the property: see the _refuted theorem) and no
-   nested block switches nested transactions off on its receiver (per-call
-   Session{DisableNestedTransaction: true}: modelled — c04_nested_disabled_plain —, tied by the
-   correspondence, and the specification is evaluated on every such case; the global setting
-   c_nonest C is inside the theorems).  c_soft C =
+   predicts gorm's behaviour, which violates the property: see the _refuted theorem).  Nested
+   transactions switched off globally (c_nonest C) or for one call on its receiver
+   (tx.Session(&Session{DisableNestedTransaction: true}).Transaction(f) inside a running
+   transaction: Child .. nn, observation ONN) are INSIDE the theorems: such a block and every
+   block inside it undo nothing by themselves, the enclosing handle keeps its own setting
+   (c04_nested_disabled_plain, c04_per_call_disabled_input_ok).  c_soft C =
    false: the pool's transaction wrapper does not fail Commit by itself (with it the transaction
    stays open until the Rollback that follows; c04_every_tx_ended / c04_released cover that case
    too).  The model follows /repo after fix 1c49b86 (the nested branch calls
@@ -67,6 +68,17 @@ Theorem c04_former_sticky_savepoint_input_ok :
   s_db s = [1; 3] /\ top_ok o (rev (s_ops s)) = true /\ usable o (rev (s_ops s)) = true.
 Proof. exact sticky_now_ok. Qed.
 Print Assumptions c04_former_sticky_savepoint_input_ok.
+
+(* the per-call switch, non-vacuously: the switched-off failing block and the failing block
+   inside it stay (2, 4), the failing ordinary block after it is undone (5); nn_prog is in the
+   domain of c04_atomic / c04_result_usable *)
+Theorem c04_per_call_disabled_input_ok :
+  scoped [] nn_prog = true /\ plain_prog nn_prog = true /\
+  let '(o, x, s) := run_top ref_env cfg_default (fault_at None) false nn_prog [] (init_st []) in
+  s_db s = [1; 2; 4; 3] /\ spec_final true o (rev (s_ops s)) [] = [1; 2; 4; 3] /\
+  map fst (rev (s_ops s)) = [KBegin; KStmt; KStmt; KStmt; KSave; KStmt; KRbTo; KStmt; KCommit].
+Proof. exact nn_witness. Qed.
+Print Assumptions c04_per_call_disabled_input_ok.
 
 (* atomicity is false for a dialector that drops save-point errors (x_drop): the stock SQLite
    dialector of gorm.io/driver/sqlite (witness: corpus/C04/stock_dialector_drops_savepoint_error.json) *)
